@@ -1,3 +1,5 @@
+import OvniModel.Generated.All
+
 /-
   Model of src/include/version.h (version_parse, version_is_compatible),
   ovni_version_check_str (src/rt/ovni.c) and the model enabling logic of
@@ -176,10 +178,24 @@ def modelEnabled (enableAll : Bool) (specVersion : Str) (threads : List ThreadRe
   | .enabled => some true
   | .disabled => some (enableAll || alwaysOn)
 
+/-- Per registered model: its character (`model_spec.model`, generated) and
+    whether its `probe` function ends in an unconditional `return 1` (generated
+    from the AST of `setup.c`: `Generated.Handlers.<m>.probeAlways`). -/
+def probeFacts : List (Nat × Bool) :=
+  [(Ovni.Generated.Ovni.modelChar, Ovni.Generated.Handlers.ovni.probeAlways),
+   (Ovni.Generated.Nanos6.modelChar, Ovni.Generated.Handlers.nanos6.probeAlways),
+   (Ovni.Generated.Nosv.modelChar, Ovni.Generated.Handlers.nosv.probeAlways),
+   (Ovni.Generated.Nodes.modelChar, Ovni.Generated.Handlers.nodes.probeAlways),
+   (Ovni.Generated.Tampi.modelChar, Ovni.Generated.Handlers.tampi.probeAlways),
+   (Ovni.Generated.Mpi.modelChar, Ovni.Generated.Handlers.mpi.probeAlways),
+   (Ovni.Generated.Kernel.modelChar, Ovni.Generated.Handlers.kernel.probeAlways),
+   (Ovni.Generated.Openmp.modelChar, Ovni.Generated.Handlers.openmp.probeAlways)]
+
 /-- `model_ovni_probe` ends with `return 1`: the base model is enabled whether
     or not a stream requires it (its requirement, when present, is still
-    checked).  Hand-modelled fact, tied by the e2e correspondence. -/
-def alwaysOn (modelChar : Nat) : Bool := modelChar == 79
+    checked).  Derived from the generated probe facts (on the current tree:
+    exactly the ovni model, `Props/Gen.lean: alwaysOn_hand`). -/
+def alwaysOn (modelChar : Nat) : Bool := probeFacts.any (fun p => p.1 == modelChar && p.2)
 
 /-- `model_event` gate: event of model index `i` is passed to the handler only
     if registered and enabled. -/
